@@ -49,6 +49,10 @@ func (g *Gen) contractForCall(fx *fnExec, cc *ssa.CallCommon) (*Contract, *calle
 		} else if n != nil {
 			keys = append(keys, "::("+n.Obj().Name()+")."+cc.Method.Name()) // error
 		} else {
+			if fx != nil && fx.pkg != nil {
+				keys = append(keys, fx.pkg.Path()+"::(interface)."+cc.Method.Name())
+				info.pkg = fx.pkg
+			}
 			keys = append(keys, "::(interface)."+cc.Method.Name())
 		}
 		// fall back on the interface that declares the method (embedded interfaces)
@@ -554,6 +558,7 @@ func (fx *fnExec) execGo(st *state, x *ssa.Go) {
 	names := fx.bindNames(info, args)
 	c := &specCtx{fx: fx, cur: st, old: st, names: names, pkg: info.pkg}
 	anchor := fx.anchorName(x)
+	fx.spawns[anchor] = &spawnInfo{ct: ct, info: info, args: args, in: x}
 	for _, r := range ct.Requires {
 		v := c.eval(r.Expr)
 		props := r.Props
@@ -723,4 +728,36 @@ func (fx *fnExec) ssaArgMap(info *calleeInfo, in ssa.Instruction) map[string]ssa
 		}
 	}
 	return m
+}
+
+// applyJoins: at a receive that joins a spawned goroutine, apply that function's contract as if it ran here
+// (it has finished: its last action was the send being received), then assume the declared relation
+// between the received value and the callee's ghosts.
+func (fx *fnExec) applyJoins(st *state, in ssa.Instruction, recv val) {
+	name := fx.anchorName(in)
+	if name == "" {
+		return
+	}
+	for _, j := range fx.ct.Joins {
+		if j.Anchor != name {
+			continue
+		}
+		fx.usedAnchors[j] = true
+		sp := fx.spawns[j.Target]
+		if sp == nil {
+			fx.fail("join at %s: no spawn %s seen on this path", name, j.Target)
+		}
+		// the callee's requires were checked at the go statement; apply effects only
+		ct := *sp.ct
+		ct.Requires = nil
+		fx.applyContract(st, in, &ct, sp.info, sp.args, nil, "join")
+		if j.Expr != nil {
+			c := &specCtx{fx: fx, cur: st, old: fx.entry, names: fx.params, pkg: fx.pkg}
+			c = c.with(map[string]sval{"recv": fx.toSval(recv)})
+			c.locals = fx.localLookup(st, in.Block())
+			v := c.eval(j.Expr)
+			fx.assume(v.term)
+			fx.assumptionsUsed["a buffered channel with a single sender delivers the value that was sent (join clauses)"] = true
+		}
+	}
 }
